@@ -11,6 +11,7 @@ from harness.props import c01
 
 OBLIGATIONS = [
     "PgmVerif.C07_gibbs_kernel_local", "PgmVerif.C07_lw_weight", "PgmVerif.C07_zero_mass", "PgmVerif.C07_forward_step",
+    "PgmVerif.C07_forward_law", "PgmVerif.C07_rejection_law", "PgmVerif.C07_lw_law",
 ]
 PARTIAL = ["numpy's generator (uniformity, choice honouring p), seed reproducibility and termination of the rejection loop are outside any "
            "proof: reproducibility is checked by running twice; laws are checked (a) exactly on networks whose non-root CPDs are "
@@ -24,12 +25,15 @@ BUDGET_QUICK = 110
 LEVEL_TEXT = ("Kernel-checked: the Gibbs kernel computed from only the factors that mention the variable is the exact full conditional of the "
               "joint (factors not mentioning it cancel); the likelihood weight is the product of the evidence variables' CPD entries at the "
               "sampled row, and joint(row) = weight x product of the sampled variables' CPD entries; a row with a zero CPD entry has zero "
-              "mass under forward sampling; one ancestral-sampling step multiplies the mass by the CPD entry. The implementation is tied by: "
+              "mass under forward sampling; the law of the whole forward sampler (per-variable draws composed in any topological order) has exactly "
+              "the in-range rows as outcomes, each once, with mass joint(row) (C07_forward_law); accepted rejection samples are those outcomes "
+              "that agree with the evidence, with their joint masses (C07_rejection_law); every likelihood-weighted outcome carries the "
+              "evidence, weight = product of evidence CPD entries, proposal mass x weight = joint(row) (C07_lw_law). The implementation is tied by: "
               "exact row checks on deterministic networks (catches any wrong-column / name-number confusion), exact likelihood weights per "
               "row, exact Gibbs transition models for every configuration, evidence / do / size / column / label checks, repeatability "
               "under a fixed seed, and a 7-sigma frequency bound against the exact joint or posterior. numpy's RNG is trusted (partial).")
 LEVEL_NOTE = "Trusted: Lean kernel + standard axioms; model; harness; numpy's random generator."
-TECHNIQUE = "Lean 4 proof (kernel = full conditional, weight identity) + exact row / weight / kernel correspondence and bounded frequency checks"
+TECHNIQUE = "Lean 4 proof (forward / rejection / likelihood-weighting laws, Gibbs kernel = full conditional) + exact row / weight / kernel correspondence and bounded frequency checks"
 
 
 def within(freq, p, n, k=7.0):
